@@ -23,9 +23,12 @@ RULE += (
     ' payloads > 65535 bytes; string form taken before and after serialize(); fresh names with format'
     ' directives, braces, quotes, newline, the empty string; a threaded scenario.'
 )
+RULE += (
+    " Also: messages with whole surplus bytes behind the last field."
+)
 ASSUMPTIONS = ["assignment means setattr / augmented assignment through the object's own __setattr__ "
                "(object.__setattr__ and __dict__ poking bypass any Python class and are out of scope)"]
-GATES = ["attempts", "existing_public", "existing_private", "property_names", "fresh_names", "augmented",
+GATES = ["messages_with_surplus_bytes", "attempts", "existing_public", "existing_private", "property_names", "fresh_names", "augmented",
          "unknown_stub_messages", "msm_messages", "string_messages", "oversize_messages", "threaded_cases",
          "threaded_switches", "via_constructor", "via_static_parser", "via_reader", "via_socket_reader",
          "failed_constructions_between"]
@@ -310,7 +313,13 @@ def run(ctx):
             except refmodel.DefinitionError:
                 break
             lm = rng.choice((1, 2))
-            run_case(ctx, enc.payload, lm, rng.getrandbits(40), rng.choice((1, 3, 10, 50)), identity)
+            pl_ = enc.payload
+            if j % 4 == 1:
+                # whole surplus bytes behind the last field (zero fill, one set bit, arbitrary bytes): still a message
+                pl_ = pl_ + rng.choice((b"\x01", b"\x00", b"\x80", b"\xff\xff", b"\x00\x00\x01",
+                                        bytes(rng.getrandbits(8) for _ in range(rng.randint(1, 6)))))
+                ctx.hit("messages_with_surplus_bytes")
+            run_case(ctx, pl_, lm, rng.getrandbits(40), rng.choice((1, 3, 10, 50)), identity)
             if refmodel.is_msm_identity(identity):
                 ctx.hit("msm_messages")
             if identity in ("1029", "1300", "1302", "1007", "1008", "1033"):
